@@ -13,6 +13,11 @@ import os
 import sys
 from multiprocessing import Pool
 
+# the repository uses PEP 695 syntax: parse it with the repository's own interpreter
+if sys.version_info < (3, 12) and os.path.exists("/venv/bin/python"):
+    os.environ["PYTHONPATH"] = "/verif" + (os.pathsep + os.environ["PYTHONPATH"] if os.environ.get("PYTHONPATH") else "")
+    os.execv("/venv/bin/python", ["/venv/bin/python"] + sys.argv)
+
 sys.path.insert(0, "/verif")
 os.environ.setdefault("TSA_QUIET", "1")
 
